@@ -7,6 +7,8 @@ import time
 from . import VERIF
 
 EXIT_OK, EXIT_VIOLATION, EXIT_ANALYSIS = 0, 1, 2
+# the self-test runs the checks on mutated scratch copies and must not overwrite the real evidence
+EVIDENCE_DIR = os.environ.get("SDPVERIF_EVIDENCE_DIR") or os.path.join(VERIF, "evidence")
 
 
 class AnalysisError(Exception):
@@ -95,7 +97,7 @@ class Check:
             (listed if k in known_open else new).append((k, o))
         for k, o in listed:
             print(f"KNOWN-FINDING: property={self.prop_id} {k} :: {known_open[k]['what']}")
-        vdir = os.path.join(VERIF, "evidence", "violations")
+        vdir = os.path.join(EVIDENCE_DIR, "violations")
         replay_paths = []
         if new:
             os.makedirs(vdir, exist_ok=True)
@@ -155,8 +157,8 @@ class Check:
             "level": self.level, "coverage": cov, "assumptions": self.assumptions,
             "wall_s": round(time.time() - self.t0, 3), "violations": n_new,
         }
-        os.makedirs(os.path.join(VERIF, "evidence"), exist_ok=True)
-        with open(os.path.join(VERIF, "evidence", f"{self.prop_id}.json"), "w") as fh:
+        os.makedirs(EVIDENCE_DIR, exist_ok=True)
+        with open(os.path.join(EVIDENCE_DIR, f"{self.prop_id}.json"), "w") as fh:
             json.dump(ev, fh, indent=1, default=str)
 
 
